@@ -3,7 +3,8 @@ Models of the two persistence stores behind `swimos_api::persistence::{ServerPer
 NodePersistence, RangeConsumer}` (C13), branch by branch:
 
 * `InMem`  — `swimos_server_app::in_memory_store` (`Ids`, `NodeState.values/maps`, the `Idle`/`InUse` hand-over of a
-  node's state between agent instances through a oneshot channel, `Drop for InMemoryNodePersistence`);
+  node's state between agent instances through a oneshot channel, `Drop for InMemoryNodePersistence`,
+  `Drop for PendingNodeState` — the code after the FC13a fix);
 * `Rocks`  — `swimos_rocks_store` on top of RocksDB seen as three ordered byte-key maps (column families `default`
   = lane names + counter, `value_lanes`, `map_lanes`): `KeyStore::{initialise_with, id_for}`,
   `SwimNodeStore::lane_id_of` (`format!("{}/{}", node_uri, lane)`), `StoreWrapper`'s `NodePersistence`,
@@ -183,7 +184,12 @@ def step (s : St) : Op → St × Out
   | .drp slot =>
     match aget s.slots slot with
     | .some (.live p uri st) => (dropLive s slot p uri st, .ok)
-    | .some (.waiting _ _ c) => ({ s with chans := adel s.chans c, slots := adel s.slots slot }, .ok)
+    | .some (.waiting p uri c) =>
+      -- `Drop for PendingNodeState`: the receiver is closed; a state that was already handed over is returned
+      -- to the plane by dropping a node store built from it
+      match aget s.chans c with
+      | .some (.full st) => (dropLive { s with chans := adel s.chans c } slot p uri st, .ok)
+      | _ => ({ s with chans := adel s.chans c, slots := adel s.slots slot }, .ok)
     | .none => (s, .badOp)
   | .data slot d =>
     match aget s.slots slot with
